@@ -335,6 +335,24 @@ class Machine(object):
         items = self.pending.pop(kind, [])
         self.flog.append((kind, tuple(sorted(it.lid for it in items)), via_sched))
         mode = self.prog.flushmodes.get(kind, "ok")
+        if mode == "nested":
+            self.nested_depth = getattr(self, "nested_depth", 0) + 1
+            if self.nested_depth <= 2:
+                other = "b" if kind != "b" else "a"
+                it = RItem(other, -1 - len(self.flog), "ok")
+                self.pending.setdefault(other, []).append(it)
+                while not it.done:
+                    if self.ci >= len(self.choices):
+                        raise Diverged("reference needs a nested flush #%d but the implementation made only %d scheduler flushes"
+                                       % (self.ci, len(self.choices)))
+                    k = self.choices[self.ci]
+                    self.menus.append(None)
+                    self.ci += 1
+                    if not self.pending.get(k):
+                        raise Diverged("implementation flushed kind %s at nested decision %d but the reference has no pending item of that kind"
+                                       % (k, self.ci - 1))
+                    self.flush(k, True)
+            self.nested_depth -= 1
         if mode == "new":
             self.pending.setdefault(kind, []).append(RItem(kind, -1 - len(self.flog), "ok"))
         for it in items:
@@ -396,6 +414,8 @@ def lockstep(prog, r, conv_parent=False):
     strict = not (prog.features & {"with:N"})
     for i, (mine, d) in enumerate(zip(m.menus, r.decisions)):
         theirs = d[0]
+        if mine is None or "flush:nested" in prog.features:
+            continue
         if prog.features & {"sync", "iv"}:
             # synchronous re-entry (nested wait or out-of-band item.value()): outside C04's premise
             break
